@@ -110,6 +110,7 @@ fn main() {
             "sm" => suites::slotmap::replay(&body),
             "slot" => suites::slot::replay(&body),
             "shape" => suites::shape::replay(&body),
+            "parse" => suites::parse::replay(&body),
             _ => panic!("unknown suite"),
         };
         ctx.emit(c);
@@ -118,6 +119,7 @@ fn main() {
             "sm" => suites::slotmap::run(&mut ctx),
             "slot" => suites::slot::run(&mut ctx),
             "shape" => suites::shape::run(&mut ctx),
+            "parse" => suites::parse::run(&mut ctx),
             _ => panic!("unknown suite"),
         }
     }
